@@ -80,7 +80,19 @@ def isas_module(E, facts):
     src = SG.HEADER + D.print_enum(E, ["EnumIs", "EnumTryAs"]) + "\n"
     did = E["id"]
     en = [(i, v) for i, v in enumerate(E["variants"]) if not v["dis"]]
+    dis = [(i, v) for i, v in enumerate(E["variants"]) if v["dis"]]
     snake = [uncp(s) for s in facts["snake"]]
+    # no method may exist for a disabled variant.  Inherent methods take precedence over trait methods, so a fallback trait
+    # with the same names answers (false / None) exactly when the derive generated nothing of that name.
+    if dis:
+        g = D.GENERICS[E["generics"]]
+        tg = {"none": "", "ty": "<T>", "tywhere": "<T>", "lt": "<'a>", "const": "<N>", "tyconst": "<T, N>", "tydef": "<T>", "constdef": "<N>"}[E["generics"]]
+        src += "pub trait NoSuchMethod {\n"
+        for (j, w) in dis:
+            src += "    fn is_%s(&self) -> bool { false }\n" % snake[j]
+            if w["kind"] == "tuple":
+                src += "    fn try_as_%s_ref(&self) -> Option<()> { None }\n" % snake[j]
+        src += "}\nimpl%s NoSuchMethod for %s%s%s {}\n" % (g.get("impl_decl", g["decl"]), E["name"], tg, g.get("where", ""))
     body = []
     for i, v in enumerate(E["variants"]):
         k = i + 1
@@ -98,7 +110,13 @@ def isas_module(E, facts):
             nm = "is_" + snake[j]
             ms.append('format!("{{\\"j\\":%d,\\"name\\":{},\\"val\\":{}}}", jcps("%s"), jbool(x.%s()))' % (j + 1, nm, nm))
         blk.append("            let m: Vec<String> = vec![%s];" % ", ".join(ms))
-        blk.append('            o.line(&format!("{{\\"op\\":\\"is\\",\\"def\\":%d,\\"i\\":%d,\\"m\\":{}}}", jlist(&m)));' % (did, k))
+        ds = []
+        for (j, w) in dis:
+            nm = "is_" + snake[j]
+            some = ("x.try_as_%s_ref().is_some()" % snake[j]) if w["kind"] == "tuple" else "false"
+            ds.append('format!("{{\\"j\\":%d,\\"name\\":{},\\"val\\":{},\\"some\\":{}}}", jcps("%s"), jbool(x.%s()), jbool(%s))' % (j + 1, nm, nm, some))
+        blk.append("            let d: Vec<String> = vec![%s];" % ", ".join(ds))
+        blk.append('            o.line(&format!("{{\\"op\\":\\"is\\",\\"def\\":%d,\\"i\\":%d,\\"m\\":{},\\"d\\":{}}}", jlist(&m), jlist(&d)));' % (did, k))
         # every try_as method
         for (j, w) in en:
             if w["kind"] != "tuple":
